@@ -12,7 +12,9 @@
 (* (step and codeword bounds - an ASCII <-> X12 oscillation would violate them), no panic, and whenever the        *)
 (* encoder finishes, the ISO 16022 reference decoder (DMHL.Decode) returns the message.                            *)
 EXTENDS DMHL, Json
-CONSTANTS Alphabet, MaxLen, Shape, Mn, Mx, EmitAll
+CONSTANTS Alphabet, MaxLen, Shape, Mn, Mx, EmitAll,
+          FixedMode     \* TRUE: the messages come from fixed.ndjson (records [msg]) instead of being built over Alphabet
+FixedMsgs == IF FixedMode THEN ndJsonDeserialize("fixed.ndjson") ELSE <<>>
 ASCII == 0  C40 == 1  TEXT == 2  X12 == 3  EDF == 4  B256 == 5
 Modes == 0..5
 IsExt(c) == c >= 128
@@ -114,7 +116,9 @@ VARIABLES msg, pos, cw, si, mode, pc, buf, steps
 vars == <<msg, pos, cw, si, mode, pc, buf, steps>>
 HasMore(p) == p < Len(msg)
 Init == /\ msg = <<>> /\ pos = 0 /\ cw = <<>> /\ si = 0 /\ mode = ASCII /\ pc = "build" /\ buf = <<>> /\ steps = 0
-Build == /\ pc = "build" /\ Len(msg) < MaxLen /\ \E c \in Alphabet : msg' = Append(msg, c)
+Build == /\ pc = "build"
+         /\ IF FixedMode THEN msg = <<>> /\ \E k \in 1..Len(FixedMsgs) : msg' = FixedMsgs[k].msg
+            ELSE Len(msg) < MaxLen /\ \E c \in Alphabet : msg' = Append(msg, c)
          /\ UNCHANGED <<pos, cw, si, mode, pc, buf, steps>>
 Begin == /\ pc = "build" /\ Len(msg) >= 1 /\ pc' = "dispatch" /\ UNCHANGED <<msg, pos, cw, si, mode, buf, steps>>
 \* a mode encoder returned normally: ne = signalled new encoding (-1 none)
@@ -253,7 +257,7 @@ RoundTripOK == LET d == Decode(cw) IN ~d.err /\ d.text = msg
 \* terminal states whose outcome deserves a look on the real encoder are printed as candidate cases
 Report == /\ pc \in {"done", "error", "panic", "runaway"}
           /\ (EmitAll \/ pc \in {"panic", "runaway"} \/ (pc = "done" /\ ~RoundTripOK) \/ (pc = "error" /\ AsciiLen(msg, 1) <= MaxCap(Shape, Mn, Mx)))
-          /\ PrintT(<<"GEN", ToJson([msg |-> msg, pc |-> pc, cw |-> cw])>>)
+          /\ PrintT(<<"GEN", ToJson([msg |-> msg, pc |-> pc, cw |-> cw, mode |-> mode])>>)
           /\ pc' = "reported" /\ UNCHANGED <<msg, pos, cw, si, mode, buf, steps>>
 Runaway == /\ pc \in {"dispatch", "loop"} /\ steps > 6 * Len(msg) + 12 /\ pc' = "runaway"
            /\ UNCHANGED <<msg, pos, cw, si, mode, buf, steps>>
